@@ -307,11 +307,14 @@ func legacy2Gen(r *Rng, tier string, idx int, args map[string]string) []string {
 		default:
 			q = Pick(r, []string{"", "a", "arc", "fil", "dir", "ZIP", "é", "\xff", "x\x00"})
 		}
-		// the model of the fuzzy matcher computes its scores in unbounded integers; the library's `int` overflows once a run of
-		// about forty adjacent matched characters has tripled the adjacency bonus past 2^63 (DESIGN 13.6, found by the thorough
-		// tier at seed 6: a 42-character query one deletion away from a 43-character word).  Queries stay below that.
-		if len(q) > 32 {
-			q = q[:32]
+		// every so often a long word one edit away from itself: the library's `int` score wraps after about forty adjacent
+		// matched characters (the adjacency bonus triples each time) and the model wraps with it (Model/Fuzzy.lean `wrap64`)
+		if len(dbWords) > 0 && r.Chance(1, 6) {
+			w := strings.ToLower(Pick(r, dbWords))
+			for len(w) < 48 {
+				w += "-" + strings.ToLower(Pick(r, dbWords))
+			}
+			q = misspell(r, w)
 		}
 		sugQ = append(sugQ, q)
 		texts = append(texts, q)
